@@ -6,7 +6,7 @@ P="$1"; ID="$2"; shift 2
 WT=/tmp/try-wt-$$
 git -C /repo worktree add -q --detach $WT HEAD || exit 9
 if ! git -C $WT apply "$P" 2>/dev/null; then echo "PATCH DOES NOT APPLY: $P"; git -C /repo worktree remove --force $WT; exit 8; fi
-cd /verif && NFCPY_SRC=$WT/src ./check "$ID" "$@"; RC=$?
+cd /verif && VERIF_EVIDENCE_DIR=/tmp/seed-trial-evidence NFCPY_SRC=$WT/src ./check "$ID" "$@"; RC=$?
 git -C /repo worktree remove --force $WT
 echo "exit=$RC"
 exit $RC
